@@ -52,9 +52,11 @@ def fill(msg, rnd, uid_len=None, ids=None):
 
 
 class StubDul(object):
-    def __init__(self):
+    def __init__(self, max_pdu_length=0):
         self.sent = []
         self.accepted_contexts = None
+        # the provider keeps the LOCAL receive limit; the association holds the limit in force after negotiation
+        self.max_pdu_length = max_pdu_length
 
     def send(self, x):
         self.sent.append(x)
@@ -63,7 +65,7 @@ class StubDul(object):
 def stub_association(max_pdu_length):
     a = ap.Association.__new__(ap.Association)
     a.max_pdu_length = max_pdu_length
-    a.dul = StubDul()
+    a.dul = StubDul(2 * max_pdu_length + 11 if max_pdu_length else 0)     # as after negotiating down to the peer's limit
     a.ae = types.SimpleNamespace(timeout=1)
     a.accepted_contexts = {}
     a.association_established = True
